@@ -83,10 +83,11 @@ Definition testreq_frame (n : Z) : out := OWire KTestRequest (Some (z_to_dec n))
 Definition tick (now : Z) (s : st) : st * list out :=
   if negb (s_conn s) then (s, [])                 (* not connected: sleep, continue *)
   else
-    (* if state == ACTIVE: if tm - last > hb - 1: (if not id: send_test_req()); last = tm *)
+    (* if state in (ACTIVE, RESENDREQ_AWAITING): if tm - last > hb - 1: if not id: send_test_req(); last = tm
+       (the clock is moved only when the probe is sent) *)
     let r1 :=
-      if (s_state s =? ST_ACTIVE) && (thr thr_probe (s_hb s) <? now - s_mlt s) then
-        if truthy (s_id s) then Some (set_mlt s now, [])
+      if session_up s && (thr thr_probe (s_hb s) <? now - s_mlt s) then
+        if truthy (s_id s) then Some (s, [])
         else match s_id s with
              | Some _ => None                     (* id 0: `is not None` -> FIXConnectionError *)
              | None =>
@@ -101,11 +102,12 @@ Definition tick (now : Z) (s : st) : st * list out :=
         let '(s2, o2) :=
           if negb (s_mlt s1 =? 0) && (thr thr_dead (s_hb s1) <? now - s_mlt s1)
           then disconnect s1 false else (s1, []) in
-        (* if id and tm - id > hb * 2: disconnect *)
+        (* if id and tm - id > hb * 2 and tm - last > hb * 2: disconnect *)
         let '(s3, o3) :=
           match s_id s2 with
           | Some n =>
               if negb (n =? 0) && (thr thr_treq (s_hb s2) <? now - n * 1000)
+                 && (thr thr_treq_silence (s_hb s2) <? now - s_mlt s2)
               then disconnect s2 false else (s2, [])
           | None => (s2, [])
           end in
@@ -175,13 +177,13 @@ Definition app_probe (now : Z) (s : st) : st * list out :=
       else (s', [OUnmodelled])
   end.
 
-(* send_msg(FIXMessage(TESTREQUEST, {112: rid})) called by application code *)
+(* send_msg(FIXMessage(TESTREQUEST, {112: rid})) called by application code: only the pending id may go out *)
 Definition app_raw (now : Z) (rid : str) (s : st) : st * list out :=
   if negb (s_conn s) || (s_state s <? ST_NETWORK_CONN_ESTABLISHED) then (s, [ORaise])
   else if session_up s then
     match s_id s with
     | None => (s, [ORaise])                        (* the TESTREQUEST gate *)
-    | Some _ => (s, [OWire KTestRequest (Some rid)])
+    | Some n => if str_eqb rid (z_to_dec n) then (s, [OWire KTestRequest (Some rid)]) else (s, [ORaise])
     end
   else (s, [OUnmodelled]).
 
